@@ -44,3 +44,162 @@ def m_hex(interp, v):
         return hex(v)
     except Exception as e:
         raise RaiseSig(e)
+
+
+# --------------------------------------------------------------------------- decimal formatting
+
+def ndigits(n):
+    """number of decimal digits of a non-negative symbolic int (1 for 0)"""
+    t = core._i(n)
+    r = core.Z.IntVal(40)
+    for k in range(39, 0, -1):
+        r = core.Z.If(t < 10 ** k, k, r)
+    return SInt(r)
+
+
+class SDecStr:
+    """format(x, '.Nf') of a non-negative number: the decimal M / 10^p, M a symbolic int.
+    Assumed (Python float formatting is correctly rounded, ties-to-even on the exact binary value):
+    M == round_half_even(value * 10^p)."""
+    _pyvc_symbolic = True
+
+    def __init__(self, M, p, grouped=False):
+        self.M = M
+        self.p = p
+        self.grouped = grouped
+
+    def length(self):
+        if self.grouped:
+            raise Unsupported("len of a grouped decimal string")
+        if self.p == 0:
+            return ndigits(self.M)
+        q, r = ctx().divmod(self.M, 10 ** self.p)
+        return ndigits(q) + (1 + self.p)
+
+    def __add__(self, o):
+        return SCat([self, o])
+
+    def truth(self):
+        return True
+
+
+class SCat:
+    """concatenation of string pieces (str constants and symbolic strings)"""
+    _pyvc_symbolic = True
+
+    def __init__(self, parts):
+        self.parts = []
+        for p in parts:
+            if isinstance(p, SCat):
+                self.parts.extend(p.parts)
+            else:
+                self.parts.append(p)
+
+    def __add__(self, o):
+        return SCat(self.parts + [o])
+
+    def __radd__(self, o):
+        return SCat([o] + self.parts)
+
+    def length(self):
+        n = 0
+        for p in self.parts:
+            n = n + (len(p) if isinstance(p, str) else p.length())
+        return n
+
+    def truth(self):
+        return True
+
+
+def _round_half_even_scaled(c, num, den, p, slack_rel=None):
+    """M == round_half_even(num/den * 10^p) for num >= 0, den > 0 (den, p concrete).
+    With slack_rel (a z3 real >= 0) the rounded operand is only known to lie within
+    num/den * (1 +- slack_rel) (float rounding of the quotient)."""
+    Z = core.Z
+    M = c.int("M")
+    N = core._i(num) * (10 ** p)
+    if slack_rel is None:
+        # 2*|N/den - M| <= 1, ties to even
+        c.assume(Z.And(2 * N - den <= 2 * M.t * den, 2 * M.t * den <= 2 * N + den))
+        c.assume(Z.Implies(2 * M.t * den == 2 * N + den, M.t % 2 == 0))
+        c.assume(Z.Implies(2 * M.t * den == 2 * N - den, M.t % 2 == 0))
+    else:
+        v = c.real("fl")
+        exact = Z.ToReal(N) / den
+        c.assume(Z.And(v.t >= exact * (1 - slack_rel), v.t <= exact * (1 + slack_rel)))
+        c.assume(Z.And(2 * v.t - 1 <= 2 * Z.ToReal(M.t), 2 * Z.ToReal(M.t) <= 2 * v.t + 1))
+    c.assume(M.t >= 0)
+    return M
+
+
+@model(format)
+def m_format(interp, v, spec=""):
+    c = ctx()
+    if not contains_sym(v):
+        try:
+            return format(v, spec)
+        except Exception as e:
+            raise RaiseSig(e)
+    grouped = False
+    sp = spec
+    if sp.startswith(","):
+        grouped = True
+        sp = sp[1:]
+    if sp in (".0f", ".1f", ".2f"):
+        p = int(sp[1])
+        c.trust("format(x,'.Nf'): correctly rounded decimal, ties-to-even on the exact binary value")
+        if isinstance(v, SInt):
+            if interp.truth(v < 0):
+                raise Unsupported("format of negative symbolic int")
+            return SDecStr(v * (10 ** p), p, grouped)
+        if isinstance(v, STrueDiv):
+            a, b = v.a, v.b
+            if not isinstance(b, int) or b <= 0:
+                raise Unsupported("format of a/b with symbolic divisor")
+            if interp.truth(a < 0):
+                raise Unsupported("format of negative quotient")
+            if (b & (b - 1)) == 0:
+                # division by a power of two: exact for a < 2^53, else relative error <= 2^-53
+                if interp.truth(a < (1 << 53)):
+                    M = _round_half_even_scaled(c, a, b, p)
+                else:
+                    c.note("format(count/2^k): for count >= 2^53 the quotient is a correctly rounded float (relative error <= 2^-53), then decimal rounding; ties not tracked")
+                    M = _round_half_even_scaled(c, a, b, p, slack_rel=core.Z.RealVal(1) / (1 << 53))
+                return SDecStr(M, p, grouped)
+            raise Unsupported("format of a/b with non power-of-two divisor")
+    raise Unsupported(f"format({type(v).__name__}, {spec!r})")
+
+
+def is_sym_int(a):
+    return isinstance(a, (SInt, SU64))
+
+
+import math as _math
+
+
+@model(_math.prod)
+def m_math_prod(interp, it, start=1):
+    r = start
+    for v in interp.iterate(it):
+        r = r * v
+    return r
+
+
+@model(np.prod)
+def m_np_prod(interp, a, *args, **kw):
+    """np.prod over a python sequence of ints: int64 machine arithmetic (wraps silently)"""
+    if args or kw:
+        raise Unsupported("np.prod with extra arguments")
+    if getattr(a, "_pyvc_symbolic", False):
+        return a.prod()
+    vals = interp.iterate(a)
+    if not contains_sym(vals):
+        return np.prod(vals)
+    if not all(isinstance(v, (SInt, int)) for v in vals):
+        raise Unsupported("np.prod of non-int symbolic values")
+    ctx().trust("np.prod(list of python ints): int64 array product, wrapping modulo 2^64")
+    p = 1
+    for v in vals:
+        p = p * v
+    t = core._i(p)
+    return SInt(((t + (1 << 63)) % (1 << 64)) - (1 << 63))
